@@ -101,7 +101,7 @@ def run(rep, wd, tier, seed):
     for i, part in enumerate(core.split(l1s, core.NCPU)):
         jobs.append((seed, ('pkg',), ('latin_1', 'cp500')[i % 2], 'pairs', 0, 0, part))
     nrand = 1200 if tier == 'thorough' else 120
-    for cfgspec in (('pkg',), ('pkgvar', 0), ('pkgvar', 1), ('gen', 1200 + seed), ('gen', 1201 + seed)):
+    for cfgspec in (('pkg',), ('pkgvar', 0), ('pkgvar', 1), ('pkgshuf', 0), ('pkgshuf', 1), ('gen', 1200 + seed), ('gen', 1201 + seed)):
         for codec in ('latin_1', 'cp037'):
             for lo in range(0, nrand, 200):
                 jobs.append((seed, cfgspec, codec, 'sets', lo, min(nrand, lo + 200), None))
